@@ -249,6 +249,10 @@ class RangeListManager {
     // (over-approximation), so that the generated code is judged against a sound runtime.
     if (keyName !== null && indexes !== null && oriUpdatePathTree !== undefined) oriUpdatePathTree = true
     if (keyName !== null && oldIndexes !== null && oriUpdatePathTree !== undefined) oriUpdatePathTree = true
+    // Same for a keyed list whose keys are not unique (the runtime warns 'keys are not unique'): the
+    // original looks the shared keys up by their rewritten names (`k--0`), so an item that is matched with
+    // another element of the same key keeps that element's stale bindings.  Outside the compilers as well.
+    if (keyName !== null && (oldSharedKeyMap || newSharedKeyMap) && oriUpdatePathTree !== undefined) oriUpdatePathTree = true
     let allowFastComparison
     let updatePathTree
     if (oriUpdatePathTree === true) {
